@@ -239,7 +239,11 @@ func main() {
 		"for each program N = hook calls of the undisturbed run, then for EVERY k in 1..N a fresh interpreter whose hook panics at its k-th call (k=0: no injected fault), followed by a second evaluation "+
 		"of the same form with a PRNG k2 in the same interpreter; observed per evaluation: panic class, later hook calls, successful recover() calls, global x, fast.VerifRunState; "+
 		"after each history a 22-evaluation defer/recover/closure battery is compared with an interpreter that saw only the definitions; "+
-		"a case is non-trivial when at least one evaluation of the history was aborted by an escaping panic; distinct by SHA-256 of (program source, k, k2)", nRandom))
+		"a case is non-trivial when at least one evaluation of the history was aborted by an escaping panic; distinct by SHA-256 of (program source, k, k2). "+
+		"Session stream: PRNG sessions of 7..16 inputs (assignments, multi-line function declarations, calls, recovered panics, blank/comment inputs, special commands :debug/:inspect/:help/:copyright/:package/:unload/:quit; "+
+		"aborted inputs: 10 kinds of run-time panic, panics after side effects, panics in deferred calls, during another panic, compile and parse errors - each also inside :debug, and :inspect with and without an inspector) "+
+		"fed through EvalReader / EvalFile / Repl / a ReadParseEvalPrint loop over a line-by-line Readline / ParseEvalPrint per input, OptTrapPanic set, 4 option sets; oracle: the rec(input, value) log equals that of a fresh interpreter "+
+		"given one Eval per successful input (side effects before the panic for aborted ones), Run record and battery as above; non-trivial = at least one aborted input", nRandom))
 	wd := vh.NewWatchdog(rep, 120*time.Second) // generous: the machine may be heavily loaded; a real hang is still reported
 	cw := vh.NewCases(a, "From Coq Require Import List Arith ZArith.\nFrom Verif Require Import C13.Model C12.Model.\nImport ListNotations.", "case", "mismatches", 400)
 	runCorpus(rep)
@@ -324,6 +328,11 @@ func main() {
 		}
 	}
 	cw.Close()
+	nSess := 60
+	if a.Thorough() {
+		nSess = 1500
+	}
+	sessionStream(a, rng.Fork(), rep, wd, nSess)
 	rep.Extra["histories_with_escaping_panic"] = escaped
 	rep.Write()
 }
